@@ -20,13 +20,16 @@ structure MemPool where
   segs : List MSeg      -- `*pool` first, then `->prev` …
 deriving Repr, DecidableEq, Inhabited
 
-/-- `nsize` chosen by `mempool_alloc` for an aligned request that does not fit -/
-def mpNextSize (mp : MemPool) (sz : Nat) : Nat :=
+/-- start value of `nsize` in `mempool_alloc`: twice the current segment (256·2 for the first),
+    not doubled once that could overflow `unsigned` -/
+def mpStartSize (mp : MemPool) : Nat :=
   let n0 := match mp.segs with
     | s :: _ => s.size
     | [] => 256
-  let n1 := if n0 ≤ mpMaxSize then n0 * 2 else n0
-  growTo 32 n1 sz
+  if n0 ≤ mpMaxSize then n0 * 2 else n0
+
+/-- `nsize` chosen by `mempool_alloc` for an aligned request that does not fit -/
+def mpNextSize (mp : MemPool) (sz : Nat) : Nat := growTo 32 (mpStartSize mp) sz
 
 def mpFits (mp : MemPool) (sz : Nat) : Bool :=
   match mp.segs with
